@@ -2475,7 +2475,7 @@ class ucisd(wave_function):
         chol_b = ham_data["chol_b"].reshape(-1, self.norb, self.norb)
         rot_chol_a = chol_a[:, :nocc_a, :]
         rot_chol_b = chol_b[:, :nocc_b, :]
-        h1_a = (ham_data["h1"][0] + ham_data["h1"][1]) / 2.0
+        h1_a = ham_data["h1"][0]
         h1_b = ham_data["h1_b"]
         hg_a = jnp.einsum("pj,pj->", h1_a[:nocc_a, :], green_a)
         hg_b = jnp.einsum("pj,pj->", h1_b[:nocc_b, :], green_b)
